@@ -1801,7 +1801,7 @@ class HexBlock(Block):
             "_Mixture",
             self.getAverageTempInC(),
             self.getAverageTempInC(),
-            self._pitchDefiningComponent[1],
+            self.getPitch(),
         )
         hexComponent.setNumberDensities(self.getNumberDensities())
         b.add(hexComponent)
